@@ -501,7 +501,7 @@ Qed.
 Theorem sign_some_guard : forall inp m x sg, vole_product K inp ->
   sign K xc yodd xover high inp m x = Some sg -> guard K xc inp m x.
 Proof.
-  intros inp m x sg Hv H. unfold sign in H. unfold partial in H.
+  intros inp m x sg Hv H. unfold sign in H.
   destruct (all_some (map (round_last K xc inp m x) (parties (in_n inp)))) as [ps|] eqn:E;
     [|discriminate].
   assert (Hps : ps = map (fun j => (big_r K inp, u_of K inp j, w_of K xc inp m j))
@@ -518,7 +518,7 @@ Proof.
   assert (Hne : parties (in_n inp) <> []).
   { intros E0. rewrite E0 in Hps. cbn [map] in Hps. subst ps. discriminate H. }
   assert (H0 : (0 < in_n inp)%nat).
-  { destruct (in_n inp); [exfalso; apply Hne; reflexivity|lia]. }
+  { destruct (in_n inp); [exfalso; apply Hne; reflexivity|apply Nat.lt_0_succ]. }
   destruct (Hall 0%nat H0) as (Hpk & HR & _ & _).
   subst ps. rewrite aggregate_map in H by exact Hne.
   rewrite (sum_u inp Hv), (sum_w inp m Hv), Hpk in H.
@@ -528,12 +528,12 @@ Proof.
   destruct (fis0 K (xc R)) eqn:Erx; cbn [orb] in H; [discriminate|]. apply fis0_false_inv in Erx.
   destruct (fis0 K ((P * (m + xc R * x)) / (R * P))) eqn:Es; [discriminate|].
   apply fis0_false_inv in Es.
-  unfold guard. fold R. fold P. split; [exact HR|]. split.
+  assert (HP : P <> f0 K).
   { intros HP. apply EU. rewrite HP. ring. }
-  split.
+  unfold guard. fold R. fold P. split; [exact HR|]. split; [exact HP|]. split.
   { intros j Hj. destruct (Hall j Hj) as (_ & _ & Hu & Hw). split; assumption. }
   split; [exact Erx|].
-  intros Hmx. apply Es. rewrite Hmx. field. exact EU.
+  intros Hmx. apply Es. rewrite Hmx. field. split; assumption.
 Qed.
 
 Theorem dkls_sign_error_iff_guard_fails : forall inp m x (a zeta : nat -> F),
@@ -570,10 +570,11 @@ Proof.
     - apply Nat.eqb_eq in Eji. subst j. rewrite Nat.ltb_irrefl. ring.
     - apply Nat.eqb_neq in Eji. destruct (Nat.ltb j i) eqn:Elt.
       + apply Nat.ltb_lt in Elt.
-        assert (Eij : Nat.ltb i j = false) by (apply Nat.ltb_ge; lia).
+        assert (Eij : Nat.ltb i j = false) by (apply Nat.ltb_ge, Nat.lt_le_incl; exact Elt).
         rewrite Eij. ring.
       + apply Nat.ltb_ge in Elt.
-        assert (Eij : Nat.ltb i j = true) by (apply Nat.ltb_lt; lia).
+        assert (Eij : Nat.ltb i j = true)
+          by (apply Nat.ltb_lt, Nat.le_neq; split; [exact Elt|congruence]).
         rewrite Eij. ring. }
   rewrite (sum_over_ext _ _ _ E), sum_over_sub.
   rewrite (sum_over_swap (parties n) (parties n) (fun i j => p j i)). ring.
